@@ -306,8 +306,16 @@ class Ref:
             return set()
         return most
 
+    def untagged(self, n, C):
+        """a scalar carrying the explicit tag of class C, as C's own hooks are to see it: the tag says which class it
+        is, the hooks ask what kind of scalar it is (plain: what the text resolves to; quoted: a string)"""
+        if n[0] == 's' and n[1] == '!' + C.__name__:
+            return ('s', P + 'str' if isinstance(n[2], models.QuotedStr) else self.resolve(n[2]), n[2])
+        return n
+
     def own_match(self, n, C):
         if '_ops_recognize' in C.__dict__:
+            n = self.untagged(n, C)
             return all(self.rec_op(n, op) for op in C.__dict__['_ops_recognize'])
         # an explicit tag naming the class itself replaces the scalar's own tag (K3 applied to scalar classes)
         if issubclass(C, enum.Enum):
@@ -397,7 +405,7 @@ class Ref:
                 d[key] = self.load(b, vt)
             return d
         if R in self.reg:
-            n = self.savorize(n, R)
+            n = self.savorize(self.untagged(n, R), R)
             if issubclass(R, enum.Enum):
                 if n[0] != 's' or n[2] not in R.__members__:
                     raise Reject('enum member')
